@@ -338,10 +338,10 @@ package tcell
 //@ func (*tScreen).buildMouseEvent
 //@   arith bv
 //@   requires t.cells.w >= 1 && t.cells.h >= 1
-//@   ensures [button] btn&0x42 != 0x42 ==> result.btn == xbtn(btn)
-//@   ensures [mods] result.mod == xmod(btn)
-//@   ensures [pos] result.x == clampTo(x, t.cells.w) && result.y == clampTo(y, t.cells.h)
 //@   ensures [nonnil] result != nil
+//@   ensures [button] result != nil && btn&0x42 != 0x42 ==> result.btn == xbtn(btn)
+//@   ensures [mods] result != nil ==> result.mod == xmod(btn)
+//@   ensures [pos] result != nil ==> result.x == clampTo(x, t.cells.w) && result.y == clampTo(y, t.cells.h)
 //@   modifies nothing
 
 // Legacy X11 report: (ESC [ | 0x9b) M Cb Cx Cy with Cb = 32+code, Cx = 32+column, Cy = 32+row (1-based).
